@@ -1,5 +1,6 @@
 import MesonModel.DepPolicy.Lemmas
 import MesonModel.DepPolicy.Repeat
+import MesonModel.DepPolicy.RegisterLemmas
 import MesonModel.DepPolicy.WrapLemmas
 /-
 C10 — Dependencies resolve by the documented fallback policy, from verified sources.
@@ -191,6 +192,62 @@ example : WellFormed r0 := by
   decide
 example : (lookup (fun _ _ => true) w0 r0).out = .found dFoo := by decide
 example : (policy (fun _ _ => true) w0 r0).1 = .found dFoo := by decide
+
+/-! ### registration ∘ lookup: `meson.override_dependency()` then `dependency()` -/
+
+/-- **Registration is the documented rule** ("if `static` is not given the override follows
+`default_library`": `both` ⇒ it stands for the static and the shared flavour; a plain lookup finds every
+override): see `register_covers` in `DepPolicy/RegisterLemmas.lean`, restated here for the audit. -/
+theorem registration_follows_default_library (t : OvTable) (name : Str) (d : Dep) (s : Option Bool) (dl : DefLib)
+    (nat : Bool) (hne : name ≠ []) (hfresh : ∀ σ, tlookup ⟨nat, name, σ⟩ t = none) :
+    ∃ t', overrideDependency t name d s dl nat = some t' ∧
+      (∀ σ, tlookup ⟨nat, name, σ⟩ t' = if covers s dl σ then some (d, true) else none) ∧
+      (∀ k : Key, (k.native ≠ nat ∨ k.name ≠ name) → tlookup k t' = tlookup k t) :=
+  register_covers t name d s dl nat hne hfresh
+
+/-- **An overridden dependency wins, through the real registration path.** After
+`meson.override_dependency(name, d, static: s)` made in a (sub)project with `default_library = dl` on a
+fresh name, every host lookup whose first name is `name` and whose `static:` keyword `σ` is covered by the
+documented rule returns `d`, with no effect at all (no system lookup, no cache read, no subproject) —
+for every other content of the world, every wrap mode, every fallback argument. -/
+theorem register_then_lookup_wins (t : OvTable) (name : Str) (d : Dep) (s : Option Bool) (dl : DefLib) (σ : Option Bool)
+    (hne : name ≠ []) (hfresh : ∀ σ', tlookup ⟨false, name, σ'⟩ t = none) (hcov : covers s dl σ = true)
+    (r : Request) (h0 : Holder) (ns : List Str) (hm : mkHolder r = .ok h0) (hn : h0.names = name :: ns)
+    (hfound : d.found = true) (hv : checkVersion sat r.wanted d.version = true) :
+    ∃ t', overrideDependency t name d s dl false = some t' ∧
+      ∀ w : World, w.overrides = slice t' false σ →
+        (lookup sat w r).out = .found d ∧ (lookup sat w r).trace = [] := by
+  rcases register_covers t name d s dl false hne hfresh with ⟨t', h1, h2, _⟩
+  refine ⟨t', h1, ?_⟩
+  intro w hw
+  have ho : alookup name w.overrides = some (d, true) := by
+    rw [hw, alookup_slice, h2 σ, hcov]; rfl
+  exact override_wins sat w r h0 name ns d true hm hn ho hfound hv
+
+/-- the variant `if dl in {static, both} … elif dl in {shared, both}` is **not** the documented rule:
+with `default_library=both` the shared flavour is never registered … -/
+theorem register_elif_counterexample :
+    ∃ t', overrideDependencyElif [] "foo".toList dFoo none .both false = some t' ∧
+      covers none .both (some false) = true ∧ tlookup ⟨false, "foo".toList, some false⟩ t' = none := by
+  refine ⟨_, rfl, rfl, ?_⟩
+  decide
+
+/-- … and `dependency('foo', static: false)` then returns the system's copy instead of the override -/
+theorem register_elif_lookup_loses :
+    ∃ t', overrideDependencyElif [] "foo".toList dFoo none .both false = some t' ∧
+      (lookup (fun _ _ => true)
+        { w0 with overrides := slice t' false (some false), system := [("foo".toList, "1.0".toList)], provides := [], subs := [] }
+        { r0 with required := false }).out ≠ .found dFoo := by
+  refine ⟨_, rfl, ?_⟩
+  decide
+
+/-- the real dispatch on the same input: the override is returned -/
+example : ∃ t', overrideDependency [] "foo".toList dFoo none .both false = some t' ∧
+      (lookup (fun _ _ => true)
+        { w0 with overrides := slice t' false (some false), system := [("foo".toList, "1.0".toList)], provides := [], subs := [] }
+        { r0 with required := false }).out = .found dFoo := by
+  refine ⟨_, rfl, ?_⟩
+  decide
 
 end dep
 
